@@ -21,6 +21,7 @@ TRUSTED = ["CPython ast", "pmcsa/paths.py", "chunk-liveness transfer functions i
 
 Chunk = namedtuple("Chunk", "status")  # fresh / saved / empty / split
 FRESH, SAVED, EMPTY, SPLIT = Chunk("fresh"), Chunk("saved"), Chunk("empty"), Chunk("split")
+CHUNKS = Opaque("chunk-generator")
 CONTENT_OPS = ("strip", "rstrip", "lstrip", "replace", "split", "rsplit", "splitlines", "translate", "decode", "partition", "rpartition", "removesuffix", "removeprefix", "expandtabs", "lower", "upper")
 
 
@@ -37,11 +38,23 @@ class ByteDomain(exchange.ExchangeDomain):
         self.is_reader = is_reader
         mod = prog.module(exchange.READERS_BASE)
         self.byte_sources = {n for n in readers if mod.functions[n].param("buf") is None}
+        self.chunk_generators = {n for n in self.byte_sources if any(isinstance(x, (ast.Yield, ast.YieldFrom)) for x in walk_no_nested(mod.functions[n].node))}
         self.kills = []
         self.sources = 0
 
     def call_raises(self, node, state, ord_=True, async_=None):
         return []  # exceptions are irrelevant for liveness: a raising path delivers nothing
+
+    def for_next(self, node, itval, state):
+        if itval in (CHUNKS, Opaque("chunk-iter")):
+            self.sources += 1
+            return [(FRESH, state)]
+        return super().for_next(node, itval, state)
+
+    def for_exhausted(self, node, itval, state):
+        if itval == CHUNKS:
+            return None  # the chunk generator never ends normally (it raises when the peer hangs up)
+        return super().for_exhausted(node, itval, state)
 
     def truth(self, v, state=None):
         if isinstance(v, Chunk):
@@ -98,6 +111,20 @@ class ByteDomain(exchange.ExchangeDomain):
     def call(self, node, fval, args, kwargs, state):
         if isinstance(node.func, ast.Name) and node.func.id in self.byte_sources:
             # the recv helper, or a wrapper of it that takes no buffer (e.g. recv + hang-up test): newly received bytes
+            self.sources += 1
+            if node.func.id in self.chunk_generators:
+                return [("ok", CHUNKS, state)]  # a generator function: an endless iterator of received chunks
+            return [("ok", FRESH, state)]
+        if call_name(node) in ("itertools.chain", "chain"):
+            # the buffers listed in a display flow into the iterator, which hands them out again one by one
+            st = state
+            for a in node.args:
+                if isinstance(a, (ast.Tuple, ast.List)):
+                    for e in a.elts:
+                        st = self._save(st, e)
+            endless = any(v == CHUNKS for v in args)
+            return [("ok", CHUNKS if endless else Opaque("chunk-iter"), st)]
+        if call_name(node) == "next" and args and args[0] in (CHUNKS, Opaque("chunk-iter")):
             self.sources += 1
             return [("ok", FRESH, state)]
         if self.is_reader_call(node, fval):
@@ -258,46 +285,26 @@ def run(chk):
     seg = [f for f in reader_fns if any(p.name == "end_tokens" for p in f.params)]
     r4.floor("readers with a terminator parameter", len(seg), 1)
     for f in seg:
-        finds = [c for c in walk_no_nested(f.node) if isinstance(c, ast.Call) and isinstance(c.func, ast.Attribute) and c.func.attr in ("find", "index") and c.args and isinstance(c.args[0], ast.Name) and c.args[0].id == "end_tokens"]
-        if len(finds) != 1 or not isinstance(finds[0].func.value, ast.Name):
-            raise AnalysisError("C03.R4: %s searches its terminator in an unrecognised way" % f.qualname)
-        fc = finds[0]
-        V = fc.func.value.id
-        loop = None
-        for a in _ancestors(fc):
-            if isinstance(a, (ast.While, ast.For)):
-                loop = a
-                break
-        if loop is None:
-            r4.fail("%s:search-not-in-loop" % f.qualname, "the terminator search is not repeated as pieces arrive", fn=f, node=fc)
-            continue
-        problems = []
-        for n in ast.walk(loop):
-            if isinstance(n, ast.Assign) and any(isinstance(t, ast.Name) and t.id == V for t in n.targets):
-                v = n.value
-                keeps = isinstance(v, ast.BinOp) and isinstance(v.op, ast.Add) and isinstance(v.left, ast.Name) and v.left.id == V
-                if not keeps:
-                    problems.append((n, "`%s` replaces the searched buffer `%s` with new data instead of appending to it: only the newest piece is searched, so an end token that straddles two pieces is never found (and earlier bytes are searched no more)" % (node_src(n, 70), V)))
-            if isinstance(n, ast.Tuple) and isinstance(getattr(n, "_parent", None), ast.Assign) and any(isinstance(e, ast.Name) and e.id == V and isinstance(e.ctx, ast.Store) for e in n.elts):
-                problems.append((n, "`%s` is re-bound by tuple assignment inside the receive loop" % V))
-        recvs = [n for n in ast.walk(loop) if isinstance(n, ast.Call) and isinstance(n.func, ast.Name) and n.func.id in byte_sources]
-        flows = False
-        for n in ast.walk(loop):
-            if isinstance(n, ast.AugAssign) and isinstance(n.op, ast.Add) and isinstance(n.target, ast.Name) and n.target.id == V:
-                flows = True
-            if isinstance(n, ast.Assign) and isinstance(n.value, ast.BinOp) and isinstance(n.value.op, ast.Add) and isinstance(n.value.left, ast.Name) and n.value.left.id == V and any(isinstance(t, ast.Name) and t.id == V for t in n.targets):
-                flows = True
-        if recvs and not flows and not problems:
-            problems.append((loop, "received data never flows into the searched buffer `%s`" % V))
-        # search offset
-        if len(fc.args) > 1:
-            msg = _offset_problem(f, loop, fc, V)
-            if msg:
-                problems.append((fc, msg))
-        for n, msg in problems:
-            r4.fail("%s:%s" % (f.qualname, "search-offset" if n is fc else "search-buffer-not-accumulated"), msg, fn=f, node=n)
-        if not problems:
-            r4.ok("%s: find(end_tokens) runs on `%s`, which accumulates every piece received" % (f.qualname, V))
+        dom = AccDomain(prog, f, byte_sources)
+        init = {p.name: (ACC if p.name == "buf" else (TOKEN if p.name == "end_tokens" else TOP)) for p in f.params}
+        init["pending"] = 0
+        outs = Interp(dom, f.node, prog).run(Env(init))
+        r4.floor("terminator searches reached in %s" % f.name, dom.n_search, 1)
+        seen = set()
+        for kind, msg, node in dom.problems:
+            if kind in seen:
+                continue
+            seen.add(kind)
+            r4.fail("%s:%s" % (f.qualname, kind), msg, fn=f, node=node)
+        # a search offset, where one is used, must not skip bytes that could begin a straddling token
+        for fc in [c for c in walk_no_nested(f.node) if isinstance(c, ast.Call) and isinstance(c.func, ast.Attribute) and c.func.attr in ("find", "index") and len(c.args) > 1 and isinstance(c.func.value, ast.Name)]:
+            loop = next((a_ for a_ in _ancestors(fc) if isinstance(a_, (ast.While, ast.For))), None)
+            msg = _offset_problem(f, loop, fc, fc.func.value.id) if loop is not None else "the search for the end token starts at an offset outside any receive loop"
+            if msg and "search-offset" not in seen:
+                seen.add("search-offset")
+                r4.fail("%s:search-offset" % f.qualname, msg, fn=f, node=fc)
+        if not seen:
+            r4.ok("%s: every search for end_tokens runs on a buffer into which all bytes received so far have flowed" % f.qualname)
     # the straddle idiom of the fixed two-byte terminator
     rl = [f for f in reader_fns if f.name == "_readline"]
     for f in rl:
@@ -316,6 +323,98 @@ def run(chk):
         if not bad:
             r5.ok("%s uses positions only" % f.qualname)
     chk.assume("the numeric bookkeeping of _readvalue (rlen across pieces) and of _readline's straddle branch is not decided here")
+
+
+ACC, NEW, TOKEN = Opaque("all-bytes-so-far"), Opaque("new-chunk"), Opaque("end-token")
+
+
+class AccDomain(Domain):
+    """The token-terminated reader: which value holds *all* bytes received since the call began (ACC), which is only
+    a newly received piece (NEW).  `pending` = pieces received that have not flowed into the accumulated buffer yet.
+    Every search for the end token must run on ACC with nothing pending."""
+
+    async_enabled = False
+    subscript_may_raise = False
+    unpack_may_raise = False
+
+    def __init__(self, prog, fn, byte_sources):
+        super().__init__(prog, fn)
+        self.byte_sources = set(byte_sources)
+        mod = fn.module
+        self.generators = {n for n in self.byte_sources if any(isinstance(x, (ast.Yield, ast.YieldFrom)) for x in walk_no_nested(mod.functions[n].node))}
+        self.problems = []
+        self.n_search = 0
+
+    def truth(self, v, state=None):
+        if v == CHUNKS:
+            return True
+        if v in (ACC, NEW, TOKEN):
+            return None  # (possibly empty) bytes
+        return super().truth(v, state)
+
+    def never_none(self, v):
+        return v in (ACC, NEW, TOKEN, CHUNKS) or super().never_none(v)
+
+    def _new(self, state):
+        return NEW, state.set("pending", min(2, state.get("pending", 0) + 1))
+
+    def binop_s(self, node, l, r, state):
+        if isinstance(node.op, ast.Add):
+            if l == ACC and r == NEW:
+                return ACC, state.set("pending", max(0, state.get("pending", 0) - 1))
+            if l == ACC and r not in (NEW, ACC):
+                return ACC, state
+            if l == NEW and r == ACC:
+                self.problems.append(("search-buffer-not-accumulated", "`%s` puts newly received bytes in front of the bytes received earlier" % node_src(node), node))
+                return TOP, state
+        return TOP, state
+
+    def subscript_load(self, objval, idxval, node, state):
+        return TOP, False  # a slice of the buffer is not the whole buffer
+
+    def attr_load(self, objval, node, state):
+        if objval in (ACC, NEW) or objval is TOP:
+            return ("meth", objval, node.attr, node_src(node.value))
+        return TOP
+
+    def for_next(self, node, itval, state):
+        if itval == CHUNKS:
+            v, st = self._new(state)
+            return [(v, st)]
+        return [(TOP, state)]
+
+    def for_exhausted(self, node, itval, state):
+        return None if itval == CHUNKS else state
+
+    def call(self, node, fval, args, kwargs, state):
+        name = call_name(node)
+        if isinstance(node.func, ast.Name) and node.func.id in self.byte_sources:
+            if node.func.id in self.generators:
+                return [("ok", CHUNKS, state)]
+            v, st = self._new(state)
+            return [("ok", v, st)]
+        if name in ("itertools.chain", "chain") and any(a == CHUNKS for a in args):
+            return [("ok", CHUNKS, state)]
+        if name == "next" and args and args[0] == CHUNKS:
+            v, st = self._new(state)
+            return [("ok", v, st)]
+        if isinstance(fval, tuple) and fval and fval[0] == "meth" and fval[2] in ("find", "index", "rfind", "partition", "split", "endswith", "count") and args and args[0] == TOKEN:
+            self.n_search += 1
+            recv, pend = fval[1], state.get("pending", 0)
+            if recv != ACC:
+                self.problems.append(("search-buffer-not-accumulated", "`%s` looks for the end token in `%s`, which does not hold all bytes received since the call began (only the newest piece, or a part of the buffer): an end token that straddles two pieces is never found" % (node_src(node, 70), fval[3]), node))
+            elif pend:
+                self.problems.append(("search-buffer-not-accumulated", "`%s` runs while a received piece has not been appended to `%s` yet: the search does not see all unconsumed bytes" % (node_src(node, 70), fval[3]), node))
+            return [("ok", TOP, state)]
+        if name == "len":
+            return [("ok", TOP, state)]
+        return [("ok", TOP, state)]
+
+    def name_store(self, name, value, state, node=None):
+        cur = state.get(name, None)
+        if cur == ACC and value != ACC and isinstance(node, (ast.Name, ast.AugAssign)) and value == NEW:
+            self.problems.append(("search-buffer-not-accumulated", "`%s` is re-bound to newly received data instead of having it appended: the bytes received earlier are searched no more, so an end token that straddles two pieces is never found" % name, node))
+        return state.set(name, value)
 
 
 class _RecvDomain(Domain):
